@@ -311,7 +311,7 @@ def two_sided_oxygen(rng, n):
         a, b = s.split(">>")
         if rng.random() < 0.5:
             r = rng.choice(R_GROUPS)
-            a, b = a + "." + r + "C", b + "." + r + "C"
+            a, b = a + ".C" + r, b + ".C" + r
         out.append(("both_o|%d" % i, a + ">>" + b))
     return out
 
@@ -329,8 +329,25 @@ def h2_on_reactant_side(rng, n):
         r = rng.choice(R_GROUPS)
         parts = a.split(".") + [h]
         if rng.random() < 0.5:
-            parts.append(r + "C")
-            b = b + "." + r + "C"
+            parts.append("C" + r)
+            b = b + ".C" + r
         rng.shuffle(parts)
         out.append(("h2|%s|%d" % (h, i), ".".join(parts) + ">>" + b))
     return [(t, s) for t, s in out if oracle.in_domain_rsmi(s)]
+
+
+def spectator_laden(rng, n):
+    """cheap MCS reactions with 1-5 spectator molecules written on the reactant side only (they are
+    passed through to the products); drives the low end of the confidence range"""
+    base = ["CCN=C=O.NCC>>CCNC(=O)NCC", "CC(=O)Cl.NCC>>CC(=O)NCC", "c1ccccc1N=C=O.NCC>>c1ccccc1NC(=O)NCC",
+            "CC(=O)OC>>CC(=O)O", "CS(=O)(=O)OCC>>CCO", "CC(=O)OCC>>CCO", "CC(=O)Cl.Nc1ccccc1>>CC(=O)Nc1ccccc1"]
+    spec = ["CCN(CC)CC", "Cl", "CCN(C(C)C)C(C)C", "ClCCl", "c1ccncc1", "CN(C)c1ccncc1", "CC#N", "Cc1ccccc1",
+            "CN(C)C=O", "C1CCOC1", "O", "[Na+].[OH-]"]
+    out = []
+    for i in range(n):
+        a, b = rng.choice(base).split(">>")
+        sp = rng.sample(spec, rng.randint(1, 5))
+        parts = a.split(".") + sp
+        rng.shuffle(parts)
+        out.append(("spect|%d" % i, ".".join(parts) + ">>" + b))
+    return out
